@@ -8,6 +8,8 @@ import (
 	"fmt"
 
 	"github.com/openGemini/openGemini/engine"
+	"github.com/openGemini/openGemini/engine/immutable"
+	"github.com/openGemini/openGemini/lib/codec"
 	"github.com/openGemini/openGemini/lib/compress"
 	"github.com/openGemini/openGemini/lib/encoding"
 	"github.com/openGemini/openGemini/lib/util"
@@ -22,6 +24,9 @@ func printConsts() {
 	for k, v := range compress.VerifConsts() {
 		c[k] = v
 	}
+	for k, v := range immutable.VerifPreAggConsts() {
+		c[k] = v
+	}
 	c["s8_max"] = simple8b.MaxValue
 	c["wal_head"] = engine.WalRecordHeadSize
 	c["wal_unknown"] = engine.WriteWalUnKnownType
@@ -29,7 +34,7 @@ func printConsts() {
 	c["wal_arrow"] = engine.WriteWalArrowFlight
 	c["wal_end"] = engine.WriteWalEnd
 	c["seg_rows_ts"] = util.DefaultMaxRowsPerSegment4TsStore
-	out := map[string]any{"consts": c, "s8": simple8b.VerifSelectorTable()}
+	out := map[string]any{"consts": c, "s8": simple8b.VerifSelectorTable(), "scales": codec.VerifScales()}
 	b, _ := json.Marshal(out)
 	fmt.Println(string(b))
 }
